@@ -73,10 +73,12 @@ class KDMixWrapper(KDWrapper):
             return x, cls
         use_cutmix = apply < self.cutmix_p
 
-        # load second sample
+        # load second sample (with a context of its own: the context of this request describes sample idx, what the
+        # loaders/transforms of the wrapped dataset record for the partner must not overwrite it)
         idx2 = int(rng.integers(len(self)))
-        x2 = self.dataset.getitem_x(idx2, ctx=ctx)
-        cls2 = self.dataset.getitem_class(idx2, ctx=ctx)
+        ctx2 = None if ctx is None else {}
+        x2 = self.dataset.getitem_x(idx2, ctx=ctx2)
+        cls2 = self.dataset.getitem_class(idx2, ctx=ctx2)
 
         # convert cls to onehot
         cls = to_one_hot_vector(cls, n_classes=n_classes)
